@@ -264,4 +264,83 @@ theorem contExtend_single (g : Graph) (c : Cont) (key : Key)
       simp only [acceptAll, appendVia, linkAll]
       cases linkAccepted g c k <;> rfl
 
+/-! ## the `positions` / `extents` setters -/
+
+/-- dropping the old link first and then `create_link` is `create_link` (which replaces an existing name itself) -/
+theorem createLinkIn_dropOld (g : Graph) (o : Nat) (role : String) (t : Nat) :
+    createLinkIn (if g.hasChild o role then g.delLink o role else g) o role t = createLinkIn g o role t := by
+  by_cases h : g.hasChild o role = true
+  · simp only [h, ↓reduceIte]
+    unfold Store.createLinkIn
+    have : (g.delLink o role).hasChild o role = false := by
+      rw [hasChild_eq, child?_delLink_self]; rfl
+    simp [this, h]
+  · simp [h]
+
+/-- the `MultiTag.positions` setter: its six statements are the model's `setRole … "positions"` -/
+theorem setRole_positions_eq (g : Graph) (p : Path) (t : Option Nat) (o : Loc) (b : Nat)
+    (ho : resolve g rootLoc p = some o) (hk : kindOf g o.key = "multi_tag") (hb : blockOfPath g p = some b) :
+    setRole g p "positions" t =
+      execRole o.key b [.refuseNone, .requireArray, .requireMember "data_arrays", .dropOld "positions",
+        .link "positions", .stamp] g t := by
+  unfold setRole
+  simp only [ho, hk, hb]
+  cases t with
+  | none => simp [execRole]
+  | some k =>
+    by_cases h1 : isKind g k "data_array" = true
+    · by_cases h2 : inBlockStore g b "data_arrays" k = true
+      · simp [execRole, h1, h2, createLinkIn_dropOld]
+      · simp [execRole, h1, h2]
+    · simp [execRole, h1]
+
+/-- the `MultiTag.extents` setter: `None` removes the link, an array passes the class and the membership test and
+is linked -/
+theorem setRole_extents_eq (g : Graph) (p : Path) (t : Option Nat) (o : Loc) (b : Nat)
+    (ho : resolve g rootLoc p = some o) (hk : kindOf g o.key = "multi_tag") (hb : blockOfPath g p = some b) :
+    setRole g p "extents" t =
+      execRoleIfNone o.key b [.dropOld "extents"] [.requireArray, .requireMember "data_arrays", .link "extents"]
+        [.stamp] g t := by
+  unfold setRole execRoleIfNone
+  simp only [ho, hk, hb]
+  cases t with
+  | none =>
+    by_cases h : g.hasChild o.key "extents" = true <;> simp [execRole, h]
+  | some k =>
+    by_cases h1 : isKind g k "data_array" = true
+    · by_cases h2 : inBlockStore g b "data_arrays" k = true
+      · simp [execRole, h1, h2]
+      · simp [execRole, h1, h2]
+    · simp [execRole, h1]
+
+/-! ## the `Feature.data` setter -/
+
+/-- the statements of the `Feature.data` setter are the model's `setRole … "data"`: the class chain with the
+membership tests (and the refusal of a DataFrame on a tagged feature) comes first, then `target_type`, the old link
+and the new link are written -/
+theorem setRole_data_eq (g : Graph) (p : Path) (t : Option Nat) (o : Loc) (b : Nat)
+    (ho : resolve g rootLoc p = some o) (hk : kindOf g o.key = "feature") (hb : blockOfPath g p = some b) :
+    setRole g p "data" t =
+      (execFeat o.key b t 12
+        [.refuseNone, .bindBlock,
+         .classChain [.requireMember "data_arrays", .setObjType "DataArray"]
+                     [.requireMember "data_frames", .refuseTagged, .setObjType "DataFrame"],
+         .writeTargetType, .dropOld, .link, .stamp] g none).map (·.1) := by
+  unfold setRole
+  simp only [ho, hk, hb]
+  cases t with
+  | none => simp [execFeat, Except.map]
+  | some k =>
+    by_cases h1 : isKind g k "data_array" = true
+    · by_cases h2 : inBlockStore g b "data_arrays" k = true
+      · simp [execFeat, Except.map, h1, h2, createLinkIn_dropOld]
+      · simp [execFeat, Except.map, h1, h2]
+    · by_cases h3 : isKind g k "data_frame" = true
+      · by_cases h4 : inBlockStore g b "data_frames" k = true
+        · by_cases h5 : (g.getAttr o.key "link_type" == some "tagged") = true
+          · simp [execFeat, Except.map, h1, h3, h4, h5]
+          · simp [execFeat, Except.map, h1, h3, h4, h5, createLinkIn_dropOld]
+        · simp [execFeat, Except.map, h1, h3, h4]
+      · simp [execFeat, Except.map, h1, h3]
+
 end Nix.Store.Lemmas
